@@ -372,12 +372,50 @@ def v4_blocks(tier, mode="short", size=None):
             blk("g1_g2_g4_g5_free_x_g36_skeleton", ("g1", "g2", "g4", "g5"))]
 
 
+def thin(seq, k):
+    """Every k-th element of a list of parts (or of assignment dicts) - with the stride raised
+    until the thinned list still shows every (metric, value) pair and every 'metric absent' that
+    the full list shows. A plain [::k] over a mixed-radix product silently pins the innermost
+    metrics whenever k shares a factor with their domain sizes."""
+    seq = list(seq)
+    if k <= 1 or len(seq) <= k:
+        return seq
+
+    def toks(x):
+        d = x[1] if isinstance(x, tuple) else x
+        return set(d.items())
+
+    allm = set(m for x in seq for m, _ in toks(x))
+
+    def cover(xs):
+        c = set()
+        for x in xs:
+            t = toks(x)
+            c |= t
+            c |= set(("absent", m) for m in allm - set(m for m, _ in t))
+        return c
+
+    want = cover(seq)
+    for kk in range(k, 2 * k + 1):
+        sub = seq[::kk]
+        if cover(sub) == want:
+            return sub
+    sub = seq[::k]
+    have = cover(sub)
+    for x in seq:
+        c = cover([x])
+        if c - have:
+            sub.append(x)
+            have |= c
+    return sub
+
+
 def many_vectors(fam, n=6000):
     """n distinct accepted vectors of one family (distinct effective assignments), for the checks'
     scale phases: more objects in one process than any plausible bounded cache holds."""
     if fam == "2":
         vs = [T.PREFIX[fam] + "/".join(x for x in (fa, fb, fc) if x) for fa, _ in v2_base_all()
-              for fb, _ in v2_temporal_effective()[::4] for fc, _ in [("", {}), ("CDP:L/TD:M", {})]]
+              for fb, _ in thin(v2_temporal_effective(), 4) for fc, _ in [("", {}), ("CDP:L/TD:M", {})]]
     elif fam == "4.0":
         vs = [T.PREFIX[fam] + f + e for f, _ in parts(T.V4_BASE, T.V4)[::19]
               for e in ("", "/E:P", "/CR:L/MAV:N", "/MSI:S/S:P", "/MVC:L/AR:H/U:Red")]
